@@ -71,6 +71,10 @@ def with_other_start(src):
 
 
 def drive(task):
+    if task["kind"] == "sched_replay":
+        from .. import schedule_replay
+        yield from schedule_replay.drive_file(task["path"], task["lo"], task["hi"], task.get("stride", 1))
+        return
     if task["kind"] == "small":
         for i, rules in enumerate(cfgsrc.small_grammars(3)):
             if i % task["parts"] == task["part"] and (i // task["parts"]) % task["stride"] == 0:
@@ -93,6 +97,10 @@ def drive(task):
 
 
 def redrive(src):
+    if src["kind"] == "gen_line":
+        from .. import schedule_replay
+        yield from schedule_replay.replay_line(src["line"])
+        return
     n = src.pop("n", 3)
     yield from events(src, n)
 
@@ -110,11 +118,20 @@ RULE = ("grammars as in C07 (+ the same hand-written grammars with 24-26 declare
 def nontrivial(e):
     if e["op"] == "unit_trace":
         return len(e["order"]) >= 2
+    if e["op"] == "sched_replay":
+        return True
     return e.get("res") != e["pre"]
 
 
 def check(tier, seed):
-    return base.standard_check(PID, tier, seed, tasks(tier, seed), MODELS[tier], RULE, nontrivial,
+    from .. import schedule_replay
+    info = {}
+    ts = tasks(tier, seed) + schedule_replay.gen_tasks(PID, "unit", tier, info, quick_stride=2)
+
+    def extra(res, done):
+        res.notes["model_schedules_forced_onto_impl"] = info
+
+    return base.standard_check(PID, tier, seed, ts, MODELS[tier], RULE, nontrivial, extra=extra,
                                assumptions=["context-free language equivalence is undecidable: languages are compared "
                                             "on all words up to length 3 (quick) / 4 (thorough)",
                                             "single-character terminals"])
